@@ -4,7 +4,7 @@
    hold for modules whose weight is as long as their channel (Fuzzy, ART2-A);
    see known_findings.json for the others. *)
 From Coq Require Import List Bool Arith Reals.
-From ART Require Import Num NumR Vec Search Kernel BaseArt BaseArt_folds Fusion Fusion_proofs.
+From ART Require Import Num NumR Vec Search Kernel BaseArt BaseArt_folds Fusion Fusion_proofs Fusion_skip.
 Import ListNotations.
 Open Scope nat_scope.
 
@@ -38,6 +38,16 @@ Theorem C10_categories_are_folds :
     forall c, c < length (W s') ->
       nth_error (W s') c = fold_members (fusionK mods gammas dims wdims) (members c X (labels s')).
 Proof. exact @fusion_categories_are_folds. Qed.
+(* the activation of a category is the gamma-weighted sum of the channel modules' own activations *)
+Theorem C10_activation_is_the_gamma_weighted_sum :
+  forall (mods : list (Kernel RN)) (gammas : list (T RN)) (dims wdims : list nat)
+         (Ws : list (list (T RN))) (x w : list (T RN)) (t : R),
+    k_choice (fusionK mods gammas dims wdims) Ws x w = Some t ->
+    exists ts, length ts = length (combine mods (pos dims wdims)) /\
+      (forall k Kp, nth_error (combine mods (pos dims wdims)) k = Some Kp -> nth_error ts k = own Ws x w Kp) /\
+      t = wsumR (combine ts gammas).
+Proof. exact choice_is_weighted_sum. Qed.
+Print Assumptions C10_activation_is_the_gamma_weighted_sum.
 Print Assumptions C10_categories_are_folds.
 
 (* one channel with gamma = 1 computes the bare module's activation (exact reals) *)
